@@ -31,6 +31,9 @@ OPTSETS = [
     # the caller supplies the key and/or the version in a header dict: still one of each in the request
     {"header": {"Sec-WebSocket-Key": "AQIDBAUGBwgJCgsMDQ4PEA==", "X-A": "1"}}, {"header": {"Sec-WebSocket-Version": "13"}},
     {"header": {"X-B": "2", "Sec-WebSocket-Version": "13", "Sec-WebSocket-Key": "EA8ODQwLCgkIBwYFBAMCAQ=="}},
+    # repeated field names and names differing only in case are the caller's lines all the same
+    {"header": ["X-Forwarded-For: a", "Via: v", "X-Forwarded-For: b"]}, {"header": {"X-Tag": "one", "x-tag": "two"}},
+    {"header": ["Sec-WebSocket-Extensions: permessage-deflate", "X-Z: 1", "Sec-WebSocket-Extensions: x-custom"], "subprotocols": ["chat"]},
 ]
 
 
@@ -130,10 +133,15 @@ def judge(T, c, info, parsed, hostspec, pub):
         custom = [tuple(x.split(": ", 1)) for x in h]
     elif isinstance(h, dict):
         custom = [(k, v) for k, v in h.items() if v is not None]
-    for k, v in custom:
-        if vals(hs, k) != [v]:
-            T.fail("spec", pub, f"custom header {k}: {v}", str(vals(hs, k)), {"site": "handshake", "cls": "custom-header"})
-            return
+    names = {k.lower() for k, _ in custom} - {"sec-websocket-key", "sec-websocket-version"}
+    sent = [(k, v) for k, v in hs if k.lower() in names]
+    mine = [(k, v) for k, v in custom if k.lower() in names]
+    if sent != mine:
+        # every line the caller supplied, once, in the caller's order (a repeated field name is the caller's business: e.g. two
+        # X-Forwarded-For lines, two extension offers)
+        T.fail("spec", pub, f"custom header lines {mine}", str(sent), {"site": "handshake", "cls": "custom-header"},
+               what=f"the caller's header lines {mine} appear in the request as {sent}")
+        return
     if isinstance(h, dict) and any(v is None and vals(hs, k) for k, v in h.items()):
         T.fail("spec", pub, "None-valued headers skipped", str(hs), {"site": "handshake", "cls": "custom-header"})
 
